@@ -850,6 +850,6 @@ pub fn run(tier: &str) -> i32 {
         ("statements_sent_during_a_ban", 50),
         ("unban_all_events", 3),
         ("ban_expiries_observed", 3),
-        ("health_checks_left_unanswered", 1),
+        ("hung_replica_scenarios", 1),
     ])
 }
